@@ -54,7 +54,10 @@ class Rec(Collector):
                 raise LIB_ERRORS[self.boom](self.model)
             raise BOOM_KINDS[self.boom](f'boom a={self.a} b={self.b} t={t}')
         self.records.append((self.id, self.a, self.b, t, self.n))
-        if self.id == 'c1' and t + 1 >= self.life and getattr(self.model, 'style', None) != 'own_done':
+        if t > self.life + 6:
+            raise Violation(f'execution a={self.a} b={self.b} is still being stepped at timestep {t}, far past its own '
+                            f'completion (life {self.life})', expected=self.life, observed=t)
+        if self.id == 'c1' and t + 1 >= self.life and getattr(self.model, 'style', None) not in ('own_done', 'own_execute'):
             self.model.complete()
 
 
@@ -73,6 +76,19 @@ class Jump(Core.System):
     def execute(self):
         if self.model.systems.timestep == 1:
             self.model.systems.timestep += 2
+
+
+class LegacySeq:
+    """A sequence in the old protocol: indexable and sized, no __iter__."""
+
+    def __init__(self, items):
+        self._items = list(items)
+
+    def __len__(self):
+        return len(self._items)
+
+    def __getitem__(self, i):
+        return self._items[i]
 
 
 class BoomError(Exception):
@@ -95,6 +111,12 @@ LIB_ERROR_TYPES = tuple(BOOM_KINDS[k] for k in LIB_ERRORS)
 
 
 class BModel(Core.Model):
+    def execute(self, n=1):
+        # a model may put per-step logic of its own into execute(): here, in style 'own_execute', its stop criterion
+        super().execute(n)
+        if self.style == 'own_execute' and self.systems.timestep >= self.life:
+            self.complete()
+
     def is_running(self):
         # a model may have its own notion of being finished
         return super().is_running() and not getattr(self, 'done', False)
@@ -175,13 +197,13 @@ def ref_records(cid, a, b, life, limit, style=None):
     while running and t < limit:
         n += 1
         out.append((cid, a, b, t, n))
-        if style != 'own_done' and t + 1 >= life:
+        if style not in ('own_done', 'own_execute') and t + 1 >= life:
             running = False            # c1 marked the model complete in this timestep
         elif style == 'jump' and t == 1:
             t += 2                     # the last system of timestep 1 skipped the clock ahead
         t += 1
-        if style == 'own_done' and t >= life:
-            running = False            # the first system of timestep `life` declares the model finished
+        if style in ('own_done', 'own_execute') and t >= life:
+            running = False            # the first system of timestep `life` / the model's own execute() ends the run
     return out
 
 
@@ -234,7 +256,8 @@ def run_batch(case, cache=None):
         # parameter values handed over as a one-shot iterable: each value is still run exactly once
         vals = list(params['a'])
         params['a'] = {'generator': (v for v in vals), 'map': map(int, vals), 'iter': iter(vals),
-                       'range': range(vals[0], vals[-1] + 1), 'tuple': tuple(vals)}[case['source']]
+                       'range': range(vals[0], vals[-1] + 1), 'tuple': tuple(vals),
+                       'legacy': LegacySeq(vals)}[case['source']]
     if case.get('style'):
         params['style'] = case['style']
     if case.get('nocoll') is not None:
@@ -329,14 +352,14 @@ def extra_cases():
             yield {'leg': 'warm', 'grid': '2x1', 'reps': 1, 'life': life, 'limit': limit, 'collectors': 'c0', 'warm': 3,
                    'procs': procs, 'outcome': oc}
     # parameter values given as one-shot iterables
-    for src in ('generator', 'map', 'iter', 'range', 'tuple'):
+    for src in ('generator', 'map', 'iter', 'range', 'tuple', 'legacy'):
         for gname in ('2x1', '3x1', '2x2'):
             for reps in (1, 2):
                 for procs, oc in ((1, None), (2, None)):
                     yield {'leg': 'sources', 'grid': gname, 'reps': reps, 'life': 2, 'limit': None, 'collectors': 'c0',
                            'procs': procs, 'outcome': oc, 'source': src}
     # models that finish by their own criterion (is_running overridden) / whose clock jumps ahead (event-driven)
-    for style in ('own_done', 'jump'):
+    for style in ('own_done', 'jump', 'own_execute'):
         for life, limit in ((3, None), (3, 2), (3, 3), (3, 7), (6, 2), (6, 3), (6, 4), (6, 5), (2, None), (1, 3), (9, 4)):
             for coll in ('c0', 'list'):
                 for procs, oc in ((1, None), (2, [[[0], [1]], [1, 0]])):
